@@ -119,6 +119,17 @@ def run_one(scn):
         if scn.get("git") and _GIT_TPL:
             shutil.copytree(_GIT_TPL["path"], root)
         P.write_project(root, scn["project"])
+        if scn.get("cond_symlinks"):
+            # COND files that are symbolic links to files kept elsewhere (one shared definition file linked into several
+            # directories): the task still belongs to - and runs in - the directory that holds the link
+            shared = os.path.join(root, "_shared_defs")
+            os.makedirs(shared, exist_ok=True)
+            for pkg in sorted({t.get("pkg", "") for t in scn["project"]["tasks"]} - {""}):
+                src = os.path.join(root, pkg, "COND")
+                if os.path.isfile(src) and not os.path.islink(src):
+                    dst = os.path.join(shared, pkg.replace("/", "__") + ".COND")
+                    shutil.move(src, dst)
+                    os.symlink(os.path.relpath(dst, os.path.dirname(src)), src)
         for plant in scn.get("plant", []):
             p = os.path.join(root, plant["path"])
             os.makedirs(os.path.dirname(p), exist_ok=True)
